@@ -45,6 +45,10 @@ openf("F19", "C03", "solve() raises 'Unstable system' from its initial current g
       ["C03.FindsModest"], "unstable_from_initial_guess",
       "Source(13 V) -> RLoss(146708 Ohm) -> Converter(vo=41.76, eff=0.678, iq=355 uA) -> ILoad(0.5 uA): steady state at 2.7 % drop, solve() raises ValueError in sweep 1")
 
+openf("F16", "C03", "Rectifier(rs=[...]) is accepted (the docstring documents 'float | list') but every solve() of a system containing it raises TypeError "
+      "instead of returning or raising RuntimeError / ValueError; a per-input list has no obvious meaning on a bridge, so no repair is attempted",
+      ["C03.ExcClass"], "rectifier_rs_list", "System(Source(12 V)) + Rectifier('R', rs=[0.1, 0.2]) + ILoad(0.1 A): solve() raises TypeError")
+
 fixed("F4", "C15", "del_comp rejects a rail name", "del_comp(<rail name>) removed the node and its children, then raised KeyError (half-deleted system)",
       ["C15.Unchanged.State", "C15.Unchanged.Reports"], "del_comp_rail_target")
 fixed("F4", "C14", "del_comp rejects a rail name", "del_comp(<rail name>) left registry entries without a node and, with del_childs=False, a non-source root",
@@ -72,6 +76,8 @@ fixed("F9", "C16", "input list valid when an input is deleted", "del_comp(<PMux 
       ["C16.ReportsSucceed.Solve", "C16.NoAuxAnomaly", "C16.Structure"], "del_mux_input_keep_children")
 fixed("F20", "C16", "phases() lists Rectifier", "phases() omitted Rectifier components", ["C16.LiveComponents.phases"])
 fixed("F12", "C17", "restores the battery source when a callback", "batt_life() left the probed voltage/resistance in the battery Source when a callback or the solver raised", ["C17.BattRestored"])
+fixed("F3", "C11", "magnitude of a negative on-resistance", "PMux(rs<0) / Rectifier(rs<0) kept the negative resistance: output above input, negative loss, efficiency above 100 %",
+      ["C11.Stored", "C11.Normalises", "C11.PassiveNoGain", "C11.LossNonNeg", "C11.EffLe100"])
 
 json.dump({"_comment": "open = genuine defect recorded, not repaired (suppresses exactly the matching violations); "
                        "fixed = repaired by the named fix: commit in /repo (suppresses nothing)", "findings": F},
